@@ -19,6 +19,7 @@ pub mod io {
                 Err(_) => bm_view(final(buf)) == bm_view(old(buf)) };
     }
     pub trait AsyncWriteExt: AsyncWrite {
+        /// writes all of `src` or fails
         fn write_all(&mut self, src: &[u8]) -> Ready<std::io::Result<()>>;
     }
     impl<T: AsyncRead + ?Sized> AsyncReadExt for T {
@@ -47,9 +48,11 @@ pub mod sync {
         pub mod error { pub struct SendError<T>(pub T); }
         #[verifier::reject_recursive_types(T)]
         pub struct RecvFut<'a, T> { pub r: &'a mut UnboundedReceiver<T> }
+        /// unbounded FIFO across all sender clones; `None` iff every sender is dropped and the queue is empty; cancel-safe
         impl<'a, T> VxFuture for RecvFut<'a, T> { type Output = Option<T>; #[verifier::external_body] fn vx_await(self) -> Option<T> { unimplemented!() } }
         impl<T> UnboundedReceiver<T> { pub fn recv(&mut self) -> RecvFut<'_, T> { RecvFut { r: self } } }
         impl<T> UnboundedSender<T> {
+            /// `Err` iff the receiver was dropped
             #[verifier::external_body] pub fn send(&self, t: T) -> Result<(), error::SendError<T>> { unimplemented!() }
             #[verifier::external_body] pub fn is_closed(&self) -> bool { unimplemented!() }
         }
@@ -64,9 +67,14 @@ pub mod sync {
         #[verifier::external_body] #[verifier::reject_recursive_types(T)]
         pub struct Receiver<T> { t: core::marker::PhantomData<T> }
         pub mod error { pub struct RecvError; }
+        /// identity of the one-shot channel a sender / receiver belongs to (ghost)
+        pub uninterp spec fn sender_id<T>(s: &Sender<T>) -> int;
+        pub uninterp spec fn receiver_id<T>(r: &Receiver<T>) -> int;
+        /// delivers to its paired receiver, or returns the value if that was dropped
         impl<T> Sender<T> { #[verifier::external_body] pub fn send(self, t: T) -> Result<(), T> { unimplemented!() } }
+        /// yields the value sent by the paired sender, `Err` if the sender was dropped without sending
         impl<T> VxFuture for Receiver<T> { type Output = Result<T, error::RecvError>; #[verifier::external_body] fn vx_await(self) -> Result<T, error::RecvError> { unimplemented!() } }
-        #[verifier::external_body] pub fn channel<T>() -> (Sender<T>, Receiver<T>) { unimplemented!() }
+        #[verifier::external_body] pub fn channel<T>() -> (r: (Sender<T>, Receiver<T>)) ensures sender_id(&r.0) == receiver_id(&r.1) { unimplemented!() }
     }
 }
 pub mod time {
@@ -78,7 +86,7 @@ pub mod time {
     impl<F: VxFuture> VxFuture for Timeout<F> { type Output = Result<F::Output, error::Elapsed>; #[verifier::external_body] fn vx_await(self) -> Result<F::Output, error::Elapsed> { unimplemented!() } }
     pub fn timeout<F: VxFuture>(d: std::time::Duration, f: F) -> Timeout<F> { Timeout { f } }
 }
-/// arbitrary choice made by `select!` (N3)
+/// arbitrary choice made by `select!` (N3): any polling order, no fairness
 #[verifier::external_body] pub fn vx_select2() -> bool { unimplemented!() }
 /// `spawn` of a de-async'ed task: the task has already run to completion as a plain call (N2)
 pub fn spawn<T>(t: T) {}
